@@ -71,8 +71,9 @@ pub enum Reply {
     Response(MsgSummary),
     Incoming(MsgSummary),
     ParseErr(String),
-    /// cancel / cancel_retransmissions / configure_timeout: whether the handle existed
-    Handle(bool),
+    /// cancel / cancel_retransmissions / configure_timeout: None if no handle exists, else the peer
+    /// address the mutable handle reports (read *before* the operation)
+    Handle(Option<SocketAddr>),
     Unit,
     Tx(Option<SocketAddr>),
     Peer(bool),
@@ -188,24 +189,27 @@ fn exec_inner(agent: &mut StunAgent, call: &Call, base: Instant) -> Reply {
         },
         Call::Cancel { tid } => match agent.mut_request_transaction(TransactionId::from(*tid)) {
             Some(mut r) => {
+                let a = r.peer_address();
                 r.cancel();
-                Reply::Handle(true)
+                Reply::Handle(Some(a))
             }
-            None => Reply::Handle(false),
+            None => Reply::Handle(None),
         },
         Call::CancelRetrans { tid } => match agent.mut_request_transaction(TransactionId::from(*tid)) {
             Some(mut r) => {
+                let a = r.peer_address();
                 r.cancel_retransmissions();
-                Reply::Handle(true)
+                Reply::Handle(Some(a))
             }
-            None => Reply::Handle(false),
+            None => Reply::Handle(None),
         },
         Call::Configure { tid, rto_ms, n, last_ms } => match agent.mut_request_transaction(TransactionId::from(*tid)) {
             Some(mut r) => {
+                let a = r.peer_address();
                 r.configure_timeout(Duration::from_millis(*rto_ms), *n, Duration::from_millis(*last_ms));
-                Reply::Handle(true)
+                Reply::Handle(Some(a))
             }
-            None => Reply::Handle(false),
+            None => Reply::Handle(None),
         },
         Call::SetRemote(c) => {
             agent.set_remote_credentials(c.lib());
